@@ -37,6 +37,7 @@ THEOREMS = [
     "RedunModel.C17.fixed_async_decorator",
 ]
 TRUSTED = [
+    "text elements of a hashed structure (names, source text, versions) are assumed never to coincide with a hex digest",
     "hashes are symbolic pre-images (perfect-hash assumption for hash_struct; TypeRegistry.get_hash injective on the "
     "values used as hash_includes / option overrides)",
     "modelled, not verified: inspect.getsource (the harness feeds its real output, split at newlines, to the model), "
@@ -66,7 +67,8 @@ LEVEL_TEXT = ("Proved on the model (repaired get_func_source) for all task defin
               "(withOptions_hash, options_keep_includes). refuted_old_async_decorator and refuted_old_options_drop_includes "
               "are the witnesses on the model of the code before the two repairs; flat_list_collision_note records the two-dimension collision. Tie: real task hash "
               "pre-images and real get_func_source output compared with the model on generated definitions; mutation oracle on real hashes.")
-LEVEL_NOTE = ("inspect.getsource and the regular expression engine are modelled; digest order of hash_includes is supplied by the "
+LEVEL_NOTE = ("The model mirrors the code WITH the proposed repair(s) (harness/findings_proposed/C17-*.fix.diff); on a tree "
+              "without them the check reports VIOLATION with concrete replays, by design. inspect.getsource and the regular expression engine are modelled; digest order of hash_includes is supplied by the "
               "harness as ranks. Task hashes cached in `.hash` after a registry rename (wraps_task) are modelled as computed at creation.")
 TECHNIQUE = "Lean 4 proof on a hand-written model of Task._calc_hash/get_func_source + pre-image correspondence + mutation oracle"
 
